@@ -113,10 +113,24 @@ PlainRelTuple(M, TS, o, r) ==
 
 \* Every valid conditional tuple on the evaluation's read set that cannot be evaluated belongs to an
 \* object other than the one the request names.
+\* (the thorough tier showed the same swallowing for a tuple ON the requested object when it is reached
+\* through a hop that leads back to that object, e.g. doc:3#viewer below "viewer from parent" with
+\* doc:3 its own ancestor: what matters is that the tuple is not read at the root, i.e. it is not a
+\* tuple of the requested object in a relation the root reaches through computed rewrites or reads
+\* as a tupleset)
+RECURSIVE RootRels(_, _, _, _)
+RootRels(M, t, frontier, seen) ==
+  IF frontier = {} THEN seen
+  ELSE LET new == UNION {IF HasRel(M, t, x) THEN {y.rel : y \in {y \in SubRw(Rw(M, t, x)) : y.k = "computed"}} ELSE {} : x \in frontier} \ seen
+       IN RootRels(M, t, new, seen \cup new)
+RootReadRels(M, t, r) ==
+  LET rr == RootRels(M, t, {r}, {r}) IN
+  rr \cup UNION {IF HasRel(M, t, x) THEN {y.ts : y \in {y \in SubRw(Rw(M, t, x)) : y.k = "ttu"}} ELSE {} : x \in rr}
 CondErrorBelowRoot(M, TS, ctx, o, r) ==
   LET rk == ReadKeys(M, TS, o, r)
       es == {t \in TS : <<t.o, t.r>> \in rk /\ t.c # "" /\ TupleReadValid(M, t) /\ CondVal(M, t, ctx) = "E"}
-  IN es # {} /\ \A t \in es : t.o # o
+      root == RootReadRels(M, o.t, r)
+  IN es # {} /\ \A t \in es : ~(t.o = o /\ t.r \in root)
 
 \* The relation (or one it depends on at type level) has an intersection with two
 \* identical operands, e.g. "viewer from parent and viewer from parent": the
@@ -292,7 +306,11 @@ V2Class(M, TS, ev) ==
          \* cycle, object that is its own parent): v2 prunes with a visited set shared across branches.
          IF ev.got = "F" /\ ref = "T" /\ ev.v1 = "T" /\ ((\E g \in GoalKeys(M, TS, ev.o, ev.r) : OnCycle(M, TS, g)) \/ HasTypeCycle(M, ev.o.t, ev.r))
          THEN <<"KF_V2CycleFalseNegative", ref>>
-         \* KF-16: a conditioned tupleset tuple leads to a parent whose target relation lists the
+         \* the same dropped branch (reproduced: editor: [user, doc#editor] or viewer from parent with a
+         \* recursive doc#viewer - the tupleset edge to doc#viewer is never evaluated) hides an evaluation
+         \* error instead of a grant: the default engine fails the request, v2 answers "no"
+         ELSE IF ev.got = "F" /\ ref = "E" /\ ev.v1 = "ERR" /\ HasTypeCycle(M, ev.o.t, ev.r)
+         THEN <<"KF_V2CycleFalseNegative", ref>> leads to a parent whose target relation lists the
          \* subject's type both with and without a condition
          ELSE IF ev.got = "F" /\ ref = "T" /\ ev.v1 = "T" /\ CondParentMixedRestr(M, TS, ev.o, ev.r)
          THEN <<"KF_V2CondParentMixedRestr", ref>>
